@@ -5,10 +5,10 @@ CONSTANTS
  PieceLen = 2
  MaxBuf = 3
  Modes <- ModesH
- PatchCL = FALSE
+ PatchCL = TRUE
  Mut = "extfirst"
  RecordHist = FALSE
  Monitor = TRUE
  FullProduct = FALSE
-INVARIANTS ChunkingInvariance PassThrough CloseWaits SelectionRule FaultSurfaces NoSilentTruncation NotExistSurfaces NoPartialInput MonitorQuiet MonitorFinal
+INVARIANTS ChunkingInvariance PassThrough CloseWaits ContentLengthGone SelectionRule FaultSurfaces NoSilentTruncation NotExistSurfaces NoPartialInput MonitorQuiet MonitorFinal
 PROPERTIES NoWriteAfterClose CloseReturned
